@@ -7,6 +7,7 @@ from typing import (
     Awaitable,
     Callable,
     MutableMapping,
+    Tuple,
 )
 
 from ..concurrency import run_in_threadpool
@@ -55,9 +56,21 @@ class NextResponse(StreamingResponse):
     This is a response object for middleware.
     """
 
+    # Set-Cookie is the one header that repeats and must not be comma-folded
+    raw_set_cookies: Tuple[str, ...] = ()
+
     async def render_stream(self) -> AsyncGenerator[bytes, None]:
         async for chunk in self.iterable:
             yield chunk
+
+    def list_headers(self, *, as_bytes):
+        headers = super().list_headers(as_bytes=as_bytes)
+        for cookie in self.raw_set_cookies:
+            if as_bytes:
+                headers.append((b"set-cookie", cookie.encode("latin-1")))
+            else:
+                headers.append(("set-cookie", cookie))
+        return headers
 
     @classmethod
     async def from_app(cls, app: ASGIApp, request: NextRequest) -> "NextResponse":
@@ -66,18 +79,24 @@ class NextResponse(StreamingResponse):
         """
         status_code = 200
         headers = Headers()
+        set_cookies: Tuple[str, ...] = ()
         body = CachedStream()
 
         async def send(message: Message) -> None:
             nonlocal status_code
             nonlocal headers
+            nonlocal set_cookies
             if message["type"] == "http.response.start":
                 status_code = message["status"]
+                response_headers = [
+                    (k.decode("latin-1"), v.decode("latin-1"))
+                    for k, v in message.get("headers", [])
+                ]
                 headers = Headers(
-                    [
-                        (k.decode("latin-1"), v.decode("latin-1"))
-                        for k, v in message.get("headers", [])
-                    ]
+                    (k, v) for k, v in response_headers if k.lower() != "set-cookie"
+                )
+                set_cookies = tuple(
+                    v for k, v in response_headers if k.lower() == "set-cookie"
                 )
             elif message["type"] == "http.response.body":
                 await body.push(message.get("body", b""))
@@ -85,7 +104,9 @@ class NextResponse(StreamingResponse):
                     await body.push_eof()
 
         await app(request, request._receive, send)
-        return NextResponse(body, status_code, headers)
+        response = NextResponse(body, status_code, headers)
+        response.raw_set_cookies = set_cookies
+        return response
 
 
 def middleware(
